@@ -112,7 +112,7 @@ impl<'a> TokenBasedLuaGenerator<'a> {
                 self.write_token(semicolon);
             } else if let Some((_, next_statement)) = iterator.peek() {
                 if utils::starts_with_parenthese(next_statement)
-                    && utils::ends_with_prefix(statement)
+                    && utils::ends_with_prefix_keeping_tokens(statement)
                 {
                     self.write_symbol(";");
                 }
